@@ -315,9 +315,53 @@ func runIdxScan(c *core.Ctx) {
 			}
 		}
 	}
+	// the other spelling of "not indexed": the list of key groups built from the filter is empty
+	// (then the index path is entered exactly when there is something to intersect)
+	emptyKeyList := func(cd an.Cond) bool {
+		cd = an.NormCond(cd)
+		bin, isBin := cd.V.(*ssa.BinOp)
+		if !isBin {
+			return false
+		}
+		ln, isCall := bin.X.(*ssa.Call)
+		if !isCall {
+			return false
+		}
+		if b, isB := ln.Call.Value.(*ssa.Builtin); !isB || b.Name() != "len" {
+			return false
+		}
+		src, isSrc := an.LoadedValue(an.Unwrap(ln.Call.Args[0])).(*ssa.Call)
+		if !isSrc {
+			return false
+		}
+		g := an.StaticCallee(&src.Call)
+		if g == nil || !P.InModule(g) {
+			return false
+		}
+		fromFilter := false
+		for _, a := range src.Call.Args {
+			if an.PathOf(a) == fp {
+				fromFilter = true
+			}
+		}
+		if !fromFilter {
+			return false
+		}
+		fr := an.Frame{IsSubject: func(v ssa.Value) bool { return v == ssa.Value(ln) }, Term: func(v ssa.Value) (int64, bool) { return an.ConstInt(v) }}
+		set, ok := fr.Atom(cd.V, cd.True)
+		return ok && set.Intersect(an.Range(0, an.PosInf)).Equal(an.Range(0, 0))
+	}
+	allEmptyKeys := len(paths) > 0
 	for _, p := range paths {
+		hasEmpty := false
 		for _, cd := range p.Conds {
 			note(cd, nil, 0)
+			if emptyKeyList(cd) {
+				hasEmpty = true
+			}
+		}
+		if !hasEmpty {
+			allEmptyKeys = false
 		}
 	}
 	// fields that contribute index keys: read in Find's region outside presence tests
@@ -342,6 +386,10 @@ func runIdxScan(c *core.Ctx) {
 	delete(keyed, "Limit")
 	delete(keyed, "Since")
 	delete(keyed, "Until")
+	if allEmptyKeys && len(tested) == 0 && setList(keyed) == "Authors,IDs,Kinds,Tags" {
+		c.OK(nil, fname(c, find), "fields", P.Pos(find.Pos()), "full scan ⇔ the list of key groups built from {"+setList(keyed)+"} is empty: the index path is entered only with something to intersect")
+		return
+	}
 	c.Check(setList(tested) == setList(keyed) && setList(tested) == "Authors,IDs,Kinds,Tags" && allNil, nil, fname(c, find), "fields", P.Pos(find.Pos()),
 		"full scan ⇔ {"+setList(tested)+"} all nil = the fields that contribute index keys",
 		fmt.Sprintf("the index path answers 'not indexed' after testing {%s} (only when all nil: %v) but index keys are built from {%s}: a filter can reach the index path with no key set (index out of range) or ignore a condition", setList(tested), allNil, setList(keyed)))
@@ -481,7 +529,12 @@ func runTopkBnd(c *core.Ctx) {
 			continue
 		}
 		lim := an.PathOf(y)
-		if isCounter(an.Unwrap(x)) && strings.Contains(lim, ".Limit") {
+		// the running count: a counter incremented per insertion, or the size of the result tree itself
+		sizeOfResult := false
+		if lc, isCall := an.Unwrap(x).(*ssa.Call); isCall && treemapCall(lc, "Len") && len(lc.Call.Args) > 0 && lc.Call.Args[0] == del.Common().Args[0] {
+			sizeOfResult = true
+		}
+		if (isCounter(an.Unwrap(x)) || sizeOfResult) && strings.Contains(lim, ".Limit") {
 			detail = fmt.Sprintf("trim when count %s limit (limit ← %s)", op, clip(lim, 70))
 			okGuard = op == token.GTR && strings.Contains(lim, "min(")
 		}
@@ -593,7 +646,8 @@ func runIdxIntersect(c *core.Ctx) {
 	// (b) intersection: a candidate of the base set that is missing from another set is
 	// deleted, and the "other set" runs over every position of the list but the base's
 	inter := false
-	var other ssa.Value // the indexed set the membership test reads: sets[i]
+	var other ssa.Value   // the indexed set the membership test reads: sets[i]
+	var baseSet ssa.Value // the set candidates are deleted from
 	an.Region(find, nil, func(o an.Occ) {
 		call, ok := o.In.(*ssa.Call)
 		if !ok {
@@ -604,13 +658,24 @@ func runIdxIntersect(c *core.Ctx) {
 			return
 		}
 		for _, g := range an.Guards(call.Parent(), call.Block()) {
+			if g.True {
+				continue
+			}
+			// `!other[ev]` on a map[*Event]bool
+			if lk, isLk := g.V.(*ssa.Lookup); isLk && !lk.CommaOk && lk.Index == call.Call.Args[1] {
+				if bt, isB := lk.Type().Underlying().(*types.Basic); isB && bt.Kind() == types.Bool {
+					inter, other, baseSet = true, lk.X, call.Call.Args[0]
+				}
+				continue
+			}
 			ex, isEx := g.V.(*ssa.Extract)
-			if !isEx || ex.Index != 1 || g.True {
+			if !isEx || ex.Index != 1 {
 				continue
 			}
 			if lk, isLk := ex.Tuple.(*ssa.Lookup); isLk && lk.CommaOk {
 				inter = true
 				other = lk.X
+				baseSet = call.Call.Args[0]
 			}
 		}
 	})
@@ -648,6 +713,11 @@ func runIdxIntersect(c *core.Ctx) {
 	loopOK, loopWhy := false, "the set tested for membership is not an element of the list of candidate sets"
 	if other != nil {
 		loopOK, loopWhy = coversAllButBase(other)
+		if !loopOK {
+			if ok, why := rangesOverTail(other, baseSet); ok {
+				loopOK, loopWhy = true, why
+			}
+		}
 	}
 	c.Check(inter && loopOK, nil, fname(c, find), "intersect-across-conditions", P.Pos(find.Pos()), "a candidate absent from another condition's set is removed, for every other set of the list (intersection of all conditions): "+loopWhy, fmt.Sprintf("candidates are not intersected across all conditions (removal on miss: %v; every other set visited: %v — %s): an event matching only some of several conditions is returned", inter, loopOK, loopWhy))
 	// (c) residual matcher: literal with exactly Since and Until of the filter
@@ -751,6 +821,78 @@ func coversAllButBase(v ssa.Value) (bool, string) {
 		h = outer
 	}
 	return false, "no enclosing loop walks the positions 1 … len-1"
+}
+
+// rangesOverTail: `base := sets[0]; for _, other := range sets[1:] { … }` —
+// the tested set is the range element of list[1:] and the base is list[0].
+func rangesOverTail(other, base ssa.Value) (bool, string) {
+	u, ok := an.Unwrap(other).(*ssa.UnOp)
+	if !ok {
+		return false, ""
+	}
+	ia, ok := u.X.(*ssa.IndexAddr)
+	if !ok {
+		return false, ""
+	}
+	sl, ok := an.Unwrap(ia.X).(*ssa.Slice)
+	if !ok || sl.High != nil || sl.Max != nil {
+		return false, ""
+	}
+	if k, isK := an.ConstInt(sl.Low); !isK || k != 1 {
+		return false, ""
+	}
+	// the index is the range induction variable of the enclosing loop over len(list[1:])
+	h := an.LoopHeaderOf(ia.Block())
+	covers := false
+	for ; h != nil && !covers; h = an.LoopHeaderOf2(h) {
+		iff, isIf := an.LastInstr(h).(*ssa.If)
+		if !isIf {
+			continue
+		}
+		cond, isB := iff.Cond.(*ssa.BinOp)
+		if !isB || cond.Op != token.LSS || cond.X != ia.Index {
+			continue
+		}
+		ln, isCall := cond.Y.(*ssa.Call)
+		if !isCall {
+			continue
+		}
+		if b, isBi := ln.Call.Value.(*ssa.Builtin); !isBi || b.Name() != "len" || an.Unwrap(ln.Call.Args[0]) != ssa.Value(sl) {
+			continue
+		}
+		// idx = phi(-1, idx) + 1
+		if inc, isInc := ia.Index.(*ssa.BinOp); isInc && inc.Op == token.ADD {
+			if ph, isPhi := inc.X.(*ssa.Phi); isPhi && ph.Block() == h {
+				if one, isK := an.ConstInt(inc.Y); isK && one == 1 {
+					for i, pb := range h.Preds {
+						if !h.Dominates(pb) {
+							if first, isK := an.ConstInt(ph.Edges[i]); isK && first == -1 {
+								covers = true
+							}
+						} else if ph.Edges[i] != ssa.Value(inc) {
+							covers = false
+						}
+					}
+				}
+			}
+		}
+	}
+	if !covers {
+		return false, ""
+	}
+	// the base is element 0 of the same list
+	bu, ok := an.Unwrap(an.LoadedValue(base)).(*ssa.UnOp)
+	if !ok {
+		return false, ""
+	}
+	bia, ok := bu.X.(*ssa.IndexAddr)
+	if !ok || an.PathOf(bia.X) != an.PathOf(sl.X) {
+		return false, ""
+	}
+	if k, isK := an.ConstInt(bia.Index); !isK || k != 0 {
+		return false, ""
+	}
+	return true, "the base is list[0] and the other set ranges over list[1:]"
 }
 
 func indexLoopCovers(h *ssa.BasicBlock, iff *ssa.If, ia *ssa.IndexAddr) (bool, string) {
